@@ -11,11 +11,14 @@ Syms == {"a", "sp", "tab", "nl", "sq", "dq", "bs", "dollar", "hash", "tilde", "s
          "nbsp", "ideosp",      \* U+00A0, U+3000: white space to Unicode, ordinary characters to bash and to the code
          "pipe", "amp", "lt", "gt", "lp", "rp", "bq",          \* | & < > ( ) `  : shell syntax
          "qm", "lb", "rb",                                       \* ? [ ]        : file-name patterns (expanded when a matching file exists)
-         "lbrace", "rbrace", "plus", "pct"}                      \* { } + %      : quoted by the code, harmless to bash here
+         "lbrace", "rbrace", "plus", "pct",                      \* { } + %      : quoted by the code; braces: see BraceExpands
+         "comma", "dot", "one",                                  \* , . 1        : ordinary characters, but the material of brace expansion
+         "trunc4", "trunc3"}                                     \* F0 9F 98 / E2 82: a multi-byte character cut short (invalid, one U+FFFD in the lossy view)
 
 \* --- the code: src/arg.rs quote() ---
 \* lossy view of the word: an invalid byte shows up as U+FFFD
-NeedsDollar(s) == s \in {"tab", "nl", "c01", "del", "fffd", "xff", "sq"}           \* c < 0x20, 0x7f, U+FFFD, '
+Invalid == {"xff", "trunc4", "trunc3"}                                             \* not UTF-8: shown as U+FFFD by the lossy view
+NeedsDollar(s) == s \in {"tab", "nl", "c01", "del", "fffd", "sq"} \cup Invalid      \* c < 0x20, 0x7f, U+FFFD, '
 CodeSpecial == {"sp", "tab", "dq", "bs", "dollar", "hash", "star", "eq", "sq", "semi", "smalltilde", "tilde",
                 "pipe", "amp", "lt", "gt", "lp", "rp", "bq", "qm", "lb", "rb", "lbrace", "rbrace", "plus", "pct"}     \* SPECIAL_CHARS
 Style(w) == IF \E i \in 1..Len(w) : NeedsDollar(w[i]) THEN "dollar"
@@ -26,11 +29,17 @@ Style(w) == IF \E i \in 1..Len(w) : NeedsDollar(w[i]) THEN "dollar"
 BashUnquotedSpecial == {"sp", "tab", "nl", "sq", "dq", "bs", "dollar", "star", "semi", "pipe", "amp", "lt", "gt", "lp", "rp", "bq", "qm", "lb"}
 \* only at the start of an unquoted word: comment, tilde expansion
 BashLeadingSpecial == {"hash", "tilde"}
+\* brace expansion of an unquoted word: {..,..} with a comma at the top level of the braces, or a sequence expression {x..y} between two
+\* letters or two numbers (here: innermost braces only - enough for every word of the enumeration that expands)
+Inner(w, i, j) == w[i] = "lbrace" /\ w[j] = "rbrace" /\ \A k \in (i + 1)..(j - 1) : w[k] \notin {"lbrace", "rbrace"}
+SeqExpr(w, i, j) == j = i + 5 /\ w[i + 2] = "dot" /\ w[i + 3] = "dot" /\ w[i + 1] \in {"a", "one"} /\ w[i + 4] = w[i + 1]
+BraceExpands(w) == \E i, j \in 1..Len(w) : i < j /\ Inner(w, i, j) /\ ((\E k \in (i + 1)..(j - 1) : w[k] = "comma") \/ SeqExpr(w, i, j))
 LosslessBare(w) == /\ \A i \in 1..Len(w) : w[i] \notin BashUnquotedSpecial
                    /\ w[1] \notin BashLeadingSpecial
-                   /\ \A i \in 1..Len(w) : w[i] # "xff"          \* printed lossily: the byte would be replaced
+                   /\ ~BraceExpands(w)
+                   /\ \A i \in 1..Len(w) : w[i] \notin Invalid       \* printed lossily: the bytes would be replaced
 LosslessSingle(w) == /\ \A i \in 1..Len(w) : w[i] # "sq"          \* '...' cannot contain '
-                     /\ \A i \in 1..Len(w) : w[i] # "xff"
+                     /\ \A i \in 1..Len(w) : w[i] \notin Invalid
 LosslessDollar(w) == TRUE      \* $'...' with \' \\ \t \n \xHH escapes can carry every byte
 
 Lossless(w) == CASE Style(w) = "bare" -> LosslessBare(w) [] Style(w) = "single" -> LosslessSingle(w) [] Style(w) = "dollar" -> LosslessDollar(w)
